@@ -9,7 +9,7 @@ Out-of-range cuts are outside the property (they are `debug_assert`ed in the cod
 -/
 import JubakoModel.Model.View
 import JubakoModel.Lemmas.Slice
-import JubakoModel.Lemmas.Funcs
+import JubakoModel.Lemmas.FuncsView
 
 namespace Jubako
 
